@@ -75,9 +75,14 @@ class _Ctx:
 
 
 class CFG:
-    def __init__(self, func: ast.AST, implicit_raise: bool = False) -> None:
+    def __init__(self, func: ast.AST, implicit_raise: bool = False, raise_oracle=None, catches=None) -> None:
+        """raise_oracle(ast_node) -> [(exception class name, origin ast)]: when given, exceptional
+        edges are generated exactly for these (typed mode) and routed with
+        catches(handler_types, cls) -> 'yes' | 'maybe' | 'no'."""
         self.func = func
         self.implicit_raise = implicit_raise
+        self.raise_oracle = raise_oracle
+        self.catches = catches
         self.nodes: list[Node] = []
         self.succ: dict[Node, list[tuple[Node, Label]]] = defaultdict(list)
         self.pred: dict[Node, list[tuple[Node, Label]]] = defaultdict(list)
@@ -134,9 +139,54 @@ class CFG:
     def _simple(self, kind: str, node: ast.AST, preds: list, flavor: str = "") -> Node:
         n = self._new(kind, node, self._flavor or flavor)
         self._connect(preds, n)
-        if self._may_raise(node):
+        if self.raise_oracle is not None:
+            for cls, origin in self.raise_oracle(node):
+                self._typed_raise(n, len(self._ctx), cls, origin)
+        elif self._may_raise(node):
             self._raise_edges(n, len(self._ctx))
         return n
+
+    def _typed_raise(self, src: Node, depth: int, cls: str, origin) -> None:
+        preds = [(src, None)]
+        i = depth - 1
+        while i >= 0:
+            c = self._ctx[i]
+            if c.kind == "try_body":
+                for hn, types in c.handler_nodes:
+                    verdict = self.catches(types, cls)
+                    if verdict in ("yes", "maybe"):
+                        for p, _ in preds:
+                            self._edge(p, hn, ("exc", types, cls, origin))
+                    if verdict == "yes":
+                        return
+            if c.kind == "suppress":
+                verdict = self.catches(c.suppress_types, cls)
+                if verdict in ("yes", "maybe"):
+                    for p, _ in preds:
+                        c.suppress_preds.append((p, ("exc", c.suppress_types, cls, origin)))
+                if verdict == "yes":
+                    return
+            if c.kind in ("try_body", "try_handler", "try_else") and c.stmt.finalbody:
+                key = (id(c.stmt), "exc", cls)
+                if key in self._finally_memo:
+                    fentry, _ = self._finally_memo[key]
+                    for p, _l in preds:
+                        self._edge(p, fentry, ("excprop", (), cls, origin))
+                    return
+                fentry = self._new("finally", c.stmt, "exc")
+                for p, _l in preds:
+                    self._edge(p, fentry, ("excprop", (), cls, origin))
+                saved_ctx, saved_flavor = self._ctx, self._flavor
+                self._ctx = self._ctx[:i]
+                self._flavor = "exc"
+                outs = self._block(c.stmt.finalbody, [(fentry, None)])
+                self._flavor = saved_flavor
+                self._ctx = saved_ctx
+                self._finally_memo[key] = (fentry, outs)
+                preds = outs
+            i -= 1
+        for p, _l in preds:
+            self._edge(p, self.rexit, ("excprop", (), cls, origin))
 
     _flavor = ""
 
@@ -252,7 +302,11 @@ class CFG:
         if isinstance(s, ast.Raise):
             n = self._new("raise", s, self._flavor)
             self._connect(preds, n)
-            self._raise_edges(n, len(self._ctx))
+            if self.raise_oracle is not None:
+                for cls, origin in self.raise_oracle(s):
+                    self._typed_raise(n, len(self._ctx), cls, origin)
+            else:
+                self._raise_edges(n, len(self._ctx))
             return []
         if isinstance(s, ast.If):
             t, f = self._cond(s.test, preds)
